@@ -5,6 +5,7 @@ import (
 	"errors"
 	"github.com/LemoFoundationLtd/lemochain-core/common"
 	"github.com/LemoFoundationLtd/lemochain-core/common/crypto"
+	"math/big"
 )
 
 var (
@@ -35,6 +36,10 @@ func recoverSigners(sigHash common.Hash, sigs [][]byte) ([]common.Address, error
 	}
 	signers := make([]common.Address, length, length)
 	for i := 0; i < length; i++ {
+		// Only the canonical (low s) encoding of a signature is valid. Or anyone can derive a second transaction with a different hash from a signed one (ECDSA malleability)
+		if len(sigs[i]) == 65 && !crypto.ValidateSignatureValues(sigs[i][64], new(big.Int).SetBytes(sigs[i][:32]), new(big.Int).SetBytes(sigs[i][32:64])) {
+			return nil, ErrInvalidSig
+		}
 		// recover the public key from the signature
 		pub, err := crypto.Ecrecover(sigHash[:], sigs[i])
 		if err != nil {
